@@ -113,6 +113,12 @@ theorem gpIdx_group {gs : List Group} {g p : Bytes} {gi pi : Nat} (h : gpIdx gs 
   cases h; exact hgi
 
 /-- POINT part of `updateParameters`: completes and keeps the invariant -/
+theorem labelsFor_ok {gs : List Group} {g : Bytes} {ol : List Bytes} (h : strsOf gs g LABELS = .ok ol) (frames : List Frame) :
+    ∃ ol', labelsFor frames gs g = .ok ol' := by
+  unfold labelsFor; split
+  · exact ⟨ol, h⟩
+  · exact ⟨[], rfl⟩
+
 theorem updatePointParams_ok {gs : List Group} (hM : Mand gs) (frames : List Frame) (np : List Bytes) :
     ∃ g', updatePointParams gs frames np = .ok g' ∧ Mand g' := by
   obtain ⟨gP, iF, hiF⟩ := hM.gpIdx POINT FRAMES _ mem_slots_PF
@@ -130,7 +136,8 @@ theorem updatePointParams_ok {gs : List Group} (hM : Mand gs) (frames : List Fra
     · rw [groupIdx_modParam]; exact hgP
     · exact hgP
   generalize (if frames.length ≠ intToU64 fr then modParam gs gP iF (·.setInts! [u64ToI32 frames.length]) else gs) = g1 at hM1 hG1 ⊢
-  obtain ⟨ol, hol⟩ := hM1.strs POINT LABELS mem_slots_PL
+  obtain ⟨ol0, hol0⟩ := hM1.strs POINT LABELS mem_slots_PL
+  obtain ⟨ol, hol⟩ := labelsFor_ok hol0 frames
   obtain ⟨us, hus⟩ := hM1.int0 POINT USED mem_slots_PU
   simp only [hol, hus, Res.andThen_ok]
   split
@@ -175,7 +182,8 @@ theorem Mand.read {gs : List Group} (h : Mand gs) (g p : Bytes) (k : Kind) (hm :
 theorem updateAnalogParams_ok {gs : List Group} (hM : Mand gs) (frames : List Frame) (na : List Bytes) :
     ∃ g', updateAnalogParams gs frames na = .ok g' ∧ Mand g' := by
   obtain ⟨gA, _, hgA, _, _⟩ := hM.group ANALOG USED _ mem_slots_AU
-  obtain ⟨ol, hol⟩ := hM.strs ANALOG LABELS mem_slots_AL
+  obtain ⟨ol0, hol0⟩ := hM.strs ANALOG LABELS mem_slots_AL
+  obtain ⟨ol, hol⟩ := labelsFor_ok hol0 frames
   obtain ⟨us, hus⟩ := hM.int0 ANALOG USED mem_slots_AU
   unfold updateAnalogParams
   simp only [hgA, hol, hus, Res.andThen_ok]
